@@ -6,6 +6,18 @@ import subprocess
 
 VERIF = os.path.dirname(os.path.dirname(os.path.abspath(__file__)))
 LEVELS = {
+    "C01": ("theorems over R: force balance makes (T/mean T, 0) an exact solution of the augmented system; an injective augmented matrix "
+            "has a single non-negative minimiser; together with C02 (rows) and C05 (certified minimiser) this is the property; the "
+            "composition is exercised end to end on Voronoi / Moebius tissues (all back-ends, fits, resampling) with D1 attributed", "4/C01",
+            "Coq theorems (equilibrium solves / uniqueness) + analytic end-to-end oracle"),
+    "C03": ("the same two theorems with b = M T (unit mobility) plus C13's placement / finite-difference theorems; end-to-end recovery "
+            "from generated motions (forward / backward, unequal steps, independent renumbering incl. id 0) within the tolerance "
+            "implied by the three-decimal rounding", "4/C03", "Coq theorems + generated-motion oracle"),
+    "C06": ("PARTIAL. Proved over R: the stated tangent orientation commutes with rotations, positive scalings and reflections; a rotation "
+            "of a junction's two equations preserves the squared residual; the multiplier column (1,1) is not rotation invariant "
+            "(refutation = known finding D3); the adimensional ratio removes a common unit factor. End-to-end invariance of tensions, "
+            "pressures and coefficient pairs, and the unit changes of dynamic inference, are evaluated by the oracle with D1 / D3 attributed",
+            "4/C06", "Coq theorems (equivariance) + transformed-pair oracle (partial)"),
     "C04": ("PARTIAL. Proved: every pressure equation has one +1 and one -1 at its interface's two cells, flipping the first cell's "
             "orientation negates the row, zero re-insertion puts 0 exactly at the dropped cells' positions and keeps the other "
             "entries in order, pressures reach the cells by dictionary position. Tested by the oracle only: side of the centre of "
